@@ -246,3 +246,7 @@ def run(ctx):
             # parameters, i.e. the curve) is a necessary condition of SKI(issuer cert) == AKI(child)
             import c11
             common.borrow_rules(rep, lambda: c11.check_spki(cfg, crate, rep), "C11.", "C03.spki")
+        # SKI(issuer certificate) and AKI(child) are the same function of the same inputs only if KeyIdMethod::derive
+        # returns pre-specified identifiers unchanged and truncates hashes alike
+        import c02
+        common.borrow_rules(rep, lambda: c02.check_derive(cfg, crate, rep), "C02.", "C03.derive")
